@@ -27,6 +27,7 @@
 #include <limits>
 #include <optional>
 #include <thread>
+#include <unistd.h>
 
 using namespace rp;
 
@@ -83,7 +84,7 @@ static const char *mode_name(cocls::subscribtion_type t) {
     }
 }
 
-static const long SPIN_LIMIT = 200000000L;
+static const long SPIN_LIMIT = 20000000L;   // yields; a legal hand-over takes a few
 
 struct Sub {
     int id = 0;
@@ -347,21 +348,19 @@ struct World {
         qp = pub->get_queue();
         for (std::size_t k = 0; k < sc.steps.size(); k++) {
             if (!step(sc.steps[k], rep, k)) break;
+            if (hung) {
+                // a helper thread is stuck inside the library (it can neither be joined nor killed):
+                // die here, graph_replay reports the scenario the replayer terminated in
+                fprintf(stderr, "helper thread stuck in scenario %s step %zu %s\n", sc.id.c_str(), k, sc.steps[k].label.c_str());
+                fflush(stdout);
+                _exit(3);
+            }
             if (!rep.check(k, project())) break;
-            if (hung) break;
         }
         teardown(sc, rep);
     }
 
     void teardown(const Scenario &sc, Reporter &rep) {
-        if (hung) {
-            // a helper thread is stuck inside the library: nothing sane can be done with it
-            fflush(stdout);
-            if (!rep.failed()) rep.diverge(sc.steps.size() - 1, "helper thread stuck");
-            printf("SUMMARY aborted: helper thread stuck in scenario %s\n", sc.id.c_str());
-            fflush(stdout);
-            _exit(1);
-        }
         // release threads blocked in next(): closing wakes every waiting subscriber
         bool blocked = false;
         for (auto &kv : subs) blocked |= kv.second->obj && kv.second->pc == "parked_b";
@@ -372,7 +371,11 @@ struct World {
                 if (kv.second->obj && kv.second->pc == "parked_b" && !rep.failed())
                     rep.diverge(sc.steps.size() - 1, "close() did not wake a thread blocked in next()");
             }
-            if (hung) { fflush(stdout); _exit(1); }
+            if (hung) {
+                fprintf(stderr, "helper thread stuck at the end of scenario %s\n", sc.id.c_str());
+                fflush(stdout);
+                _exit(3);
+            }
         }
         for (auto &kv : subs) if (kv.second->obj) leave(*kv.second);
         subs.clear();
